@@ -576,7 +576,8 @@ func ruleDequeResize(c *Ctx, r *R) {
 	segs := map[ssa.Value]bool{}
 	for _, di := range deepInstrs(rs, 2) {
 		if call, ok := di.in.(*ssa.Call); ok {
-			if bi, ok := call.Call.Value.(*ssa.Builtin); ok && bi.Name() == "copy" && len(call.Call.Args) == 2 {
+			// copy(dst, seg), or append(window, seg...) onto a window of the new buffer: either moves the whole segment
+			if bi, ok := call.Call.Value.(*ssa.Builtin); ok && (bi.Name() == "copy" || bi.Name() == "append") && len(call.Call.Args) == 2 {
 				for _, lf := range valueLeaves(call.Call.Args[1], di.calls, 0) {
 					if sl, ok := lf.v.(*ssa.Slice); ok {
 						if f, _, ok := rootField(sl.X); ok && f == "a" {
